@@ -300,6 +300,12 @@ class SymEnv(BaseEnv):
         r = lift(a) <= lift(b)
         return self.holds(name, r)
 
+    def is_max(self, name, res, vals):
+        """clause: res = max(vals)"""
+        ge = S.sb_and([lift(res) >= lift(v) for v in vals])
+        eq = S.sb_or([lift(res) == lift(v) for v in vals])
+        return self.holds(name, S.sb_and([ge, eq]))
+
     def raises(self, name, fn, exc_types=(Exception,)):
         """clause: fn() raises (on this path).  Returns the exception or None"""
         try:
@@ -500,6 +506,9 @@ class ConcEnv(BaseEnv):
             return False
         self.log.append((name, 'ok', ''))
         return True
+
+    def is_max(self, name, res, vals):
+        return self.eq(name, [float(res)], [max(float(v) for v in vals)])
 
     def raises(self, name, fn, exc_types=(Exception,)):
         try:
